@@ -47,7 +47,7 @@ def cases(tier, seed):
     for rep in range(reps):
         for D in (1, 2, 4):
             for P in (2, 3):
-                for k in ('lu', 'det', 'eigh', 'qr', 'branches', 'inplace', 'magnitudes', 'jacobian'):
+                for k in ('lu', 'det', 'eigh', 'qr', 'branches', 'inplace', 'magnitudes', 'jacobian', 'powarray', 'mixedrank'):
                     out.append({'kind': 'structure', 'seed': case_seed('C11', seed, k, D, P, rep), 'params': {'what': k, 'D': D, 'P': P}})
     for prog in progs.cat():
         if {'fancy', 'augmented'} & prog.tags:
@@ -108,6 +108,40 @@ def _structure(ctx, p, rng):
         algopy.eigh(UTPM(a))
         b = gen.series_data(rng, D, P, (n, 2), 'R', 'random', False, 0.3)
         algopy.svd(UTPM(b))
+    elif what == 'powarray':
+        # an ARRAY of exponents: broadcast against the value axes, never against the direction axis - also when it has more axes than
+        # the base and its leading axis happens to have length P
+        for xs, rs in (((n,), (P, n)), ((), (P,)), ((n,), (n,)), ((2, n), (n,)), ((n,), (P + 1, n)), ((1,), (P, 1))):
+            x = UTPM(gen.series_data(rng, D, P, xs, 'pos', 'random', False, 0.3))
+            r = np.round(rng.uniform(0.5, 3.0, size=rs), 2)
+            if rng.random() < 0.5:
+                r = np.round(r)
+            try:
+                x ** r
+            except Exception:
+                ctx.skip('unsupported:pow-array-exponent')
+    elif what == 'mixedrank':
+        # one direction with a rank deficient base matrix next to regular ones: every direction gets the factorization it gets alone
+        for shp in ((3, 2), (3, 3)):
+            a = gen.series_data(rng, D, P, shp, 'R', 'random', False, 0.3)
+            for pp in range(P):
+                a[0, pp] = gen.well_conditioned(rng, shp[0], shp[1])
+            k = int(rng.integers(P))
+            a[0, k][:, -1] = 2.0 * a[0, k][:, 0]                 # direction k: rank shp[1] - 1
+            ctx.direction_tag = ':directions-of-different-rank'
+            try:
+                algopy.svd(UTPM(a.copy()))
+            except Exception:
+                ctx.skip('unsupported:svd-rank-deficient')
+            finally:
+                ctx.direction_tag = ''
+            from algopy import CGraph, Function
+            try:
+                cg = CGraph(); F = Function(UTPM(a.copy())); Qf, Rf = algopy.qr(F); cg.trace_off()
+                cg.independentFunctionList = [F]; cg.dependentFunctionList = [Qf, Rf]
+                cg.pullback([UTPM(rng.normal(size=Qf.x.data.shape)), UTPM(rng.normal(size=Rf.x.data.shape))])
+            except Exception:
+                ctx.skip('unsupported:qr-pullback-rank-deficient')
     elif what == 'qr':
         for shp in ((4, 3), (3, 3)):
             a = gen.series_data(rng, D, P, shp, 'rankdef', 'random', False, 0.3)
